@@ -24,7 +24,7 @@ def gen_case(rng):
   regs = G.gen_registry(rng, rng.randint(2, 3))
   scopes = [[], ['a'], ['a', 'b']]
   ops = list(regs) + G.gen_history(rng, regs, rng.randint(8, 25), scopes)
-  ops += [{'op': 'locked'}, {'op': 'config'}]
+  ops += [{'op': 'locked'}, {'op': 'config'}, {'op': 'registry'}]
   return {'dom': 'gin', 'ops': ops}
 
 
@@ -35,7 +35,7 @@ def gen_cases(rng, tier, boost=1):
 
 
 def oracle(case, impl):
-  return refmodel.check_history(case, impl, {'bind', 'config', 'finalize', 'register', 'locked', 'unlock', 'clear', 'hook'})
+  return refmodel.check_history(case, impl, {'bind', 'config', 'finalize', 'register', 'locked', 'unlock', 'clear', 'hook', 'registry', 'interactive'})
 
 
 def nontrivial(case, impl):
